@@ -133,6 +133,12 @@ def _rules():
         "observers": [
             lambda R, c, rid: accessors.fresh_per_round(R, c, rid),
         ],
+        "gc-scope": [
+            lambda R, c, rid: accessors.gc_scope(R, c, rid),
+        ],
+        "creation": [
+            lambda R, c, rid: _as(R, c, rid, c04.rule_a, "C04.a"),
+        ],
         "identity": [
             lambda R, c, rid: shared.branch_identity(R, c, rid),
         ],
@@ -148,9 +154,9 @@ def _rules():
 
 # property -> mechanisms it depends on *in addition to* the clauses its own module already runs
 DEPENDS = {
-    "C01": ["squash", "splice", "partial", "flags", "stash-deletes", "lookup", "content", "export", "liveness", "block-wire", "merge", "state-vector", "identity", "weak-wire", "update-events"],
+    "C01": ["squash", "splice", "partial", "flags", "stash-deletes", "lookup", "content", "export", "liveness", "block-wire", "merge", "state-vector", "identity", "weak-wire", "update-events", "creation"],
     "C02": ["stash-deletes", "lookup", "export", "block-wire", "merge", "state-vector"],
-    "C03": ["splice", "conflict", "lookup", "content", "map-api", "text-units"],
+    "C03": ["splice", "conflict", "lookup", "content", "map-api", "text-units", "creation"],
     "C04": ["splice", "dependency", "stash-deletes", "lookup", "content", "block-iter", "update-events", "liveness"],
     "C05": ["conflict", "squash", "splice", "dependency", "map-api", "merge", "delete-set", "update-events"],
     "C06": ["dependency", "delete-set", "slice", "partial", "lookup", "content", "merge", "state-vector", "liveness", "block-wire"],
@@ -159,9 +165,9 @@ DEPENDS = {
     "C09": ["slice", "partial", "content", "identity", "weak-wire", "block-wire"],
     "C11": ["liveness", "observers"],
     "C12": ["splice", "squash", "lookup", "delete-set"],
-    "C13": ["splice", "delete-set", "lookup", "content", "export", "liveness", "state-vector", "block-wire"],
+    "C13": ["splice", "delete-set", "lookup", "content", "export", "liveness", "state-vector", "block-wire", "gc-scope"],
     "C14": ["splice", "liveness", "lookup", "redone", "block-iter", "identity"],
-    "C15": ["squash", "splice", "content", "block-wire", "liveness"],
+    "C15": ["squash", "splice", "content", "block-wire", "liveness", "gc-scope"],
     "C16": ["delete-set", "lookup"],
     "C17": ["flags", "content", "map-api", "block-iter"],
     "C18": ["dependency", "stash-deletes", "partial", "export", "block-wire", "merge", "state-vector", "lookup"],
